@@ -1,5 +1,6 @@
 """Rules over Client / AsyncClient, shared by C08, C09, C10."""
 import ast
+import re
 
 from sa.absval import AbsEval, Const, Kind
 from sa.expr import txt, match, atom, unawait, linear, int_ordering
@@ -674,3 +675,110 @@ def send_request_rule(A, cf, rule):
                                       '"connected" to a silent server')
     if not found:
         raise AnalysisError('%s: no failure handler in %s' % (rule, fi.qualname))
+
+
+def trigger_rules(A, cf, rule):
+    """The client's _trigger_event: handler calls are contained; the legacy (no-argument)
+    disconnect retry is taken exactly for a disconnect event fired with its one argument."""
+    from . import srvrules
+    srvrules.trigger_event_rules(A, cf, rule, cls_key='cls')
+
+
+def reset_rules(A, cf, rule):
+    """_reset(): the client is 'disconnected' and has no sid as soon as _reset() is entered,
+    unconditionally; and _reset() takes nothing away that connect() still reads after a point
+    where a disconnect may already have happened."""
+    name = cf['name']
+    base = A.func('base_client.BaseClient._reset')
+    bcls = A.model.cls('base_client.BaseClient')
+    ps = [p for p in A.paths(A.enum(follow_handlers=False), base, bcls) if p.outcome != 'cut']
+    A.floor(rule, 'BaseClient._reset paths', len(ps), 1)
+    extra = set()
+    for p in ps:
+        v = PV(p)
+        w = {t: val for t, val in ((txt(e.target), txt(e.expr)) for e in v.ev if e.kind == 'write')}
+        und = [e for e in v.ev if e.kind == 'guard' and e.cls != 'decided']
+        A.check(p.outcome == 'return' and w.get('self.state') == "'disconnected'" and
+                w.get('self.sid') == 'None' and not und, rule + '.reset',
+                "BaseClient._reset() always leaves state 'disconnected' and sid None",
+                A.site(base), key='client-reset-total', detail=v.describe(),
+                behaviour='a stale sid survives a disconnect: the next websocket connect is '
+                          'taken for an upgrade of a session that no longer exists')
+        extra |= {t for t in w if t not in ('self.state', 'self.sid')}
+    own = A.model.cls(cf['cls']).methods.get('_reset')
+    if own is not None:
+        ps2 = [p for p in A.paths(A.enum(follow_handlers=False), own, A.model.cls(cf['cls']))
+               if p.outcome != 'cut']
+        for p in ps2:
+            v = PV(p)
+            first = next((e for e in v.ev if e.kind == 'call' and e.depth == 0 and
+                          txt(e.expr) != 'super()'), None)
+            A.check(first is not None and txt(first.expr) == 'super()._reset()',
+                    rule + '.reset', '%s _reset() resets state and sid before anything that can '
+                    'wait or fail' % name, A.site(own), key='%s-reset-first' % name,
+                    detail=v.describe(),
+                    behaviour="the client stays 'disconnecting' with the old sid while (or "
+                              'forever if) closing the HTTP session waits or fails: a reconnect '
+                              'from the disconnect handler is refused')
+            for e in v.ev:
+                if e.kind == 'write' and txt(e.target) not in ('self.state', 'self.sid',
+                                                               'self.http'):
+                    extra.add(txt(e.target))
+    # attributes cleared by _reset() must not be read by connect() after the handshake
+    # packets / the connect handler ran (either may have disconnected already)
+    for fn in ('_connect_polling', '_connect_websocket'):
+        fi, cps = cpaths(A, cf, fn)
+        for p in cps:
+            v = PV(p)
+            cut = [i for i, e in enumerate(v.ev) if e.kind == 'call' and e.depth == 0 and (
+                txt(e.expr).startswith("self._trigger_event('connect'") or
+                txt(e.expr).startswith('self._receive_packet('))]
+            if not cut:
+                continue
+            for e in v.ev[cut[0] + 1:]:
+                if e.kind in ('guard', 'call') and e.depth == 0 and e.expr is not None:
+                    t = txt(e.expr)
+                    hit = [a for a in extra if re.search(re.escape(a) + r'(?![\w])', t)]
+                    A.check(not hit, rule + '.reset', '%s %s: nothing that _reset() clears is '
+                            'read after the handshake packets / connect handler ran' % (name, fn),
+                            A.site(fi, e.node), key='%s-reset-clears-%s' % (name, fn),
+                            detail=['_reset() writes %s' % sorted(extra), t],
+                            behaviour='a CLOSE in the handshake payload, or a disconnect() '
+                                      'from the connect handler, makes connect() fail with '
+                                      'TypeError instead of returning')
+
+
+def decode_guard_rule(A, cf, rule):
+    """Turning a response body into text can fail (invalid UTF-8 is a ValueError): it happens
+    under the same ValueError handler as the payload decoding."""
+    name = cf['name']
+    for fn in ('_connect_polling', '_read_loop_polling'):
+        fi = A.func(cf['cls'] + '.' + fn)
+        cfg = A.enum().cfg(fi)
+        n = 0
+        for node in cfg.nodes:
+            a = node.ast if node.kind in ('stmt', 'return', 'test') else None
+            if a is None:
+                continue
+            for c in ast.walk(a):
+                if isinstance(c, ast.Call) and isinstance(c.func, ast.Attribute) and \
+                        c.func.attr == 'decode' and ('.content' in ast.unparse(c.func.value) or
+                                                     '.read()' in ast.unparse(c.func.value)):
+                    n += 1
+                    ok = False
+                    for succ, lab in node.succ:
+                        if lab == 'exc' and succ.kind == 'handler':
+                            from sa.cfg import _handler_names
+                            hn = _handler_names(succ.ast)
+                            if hn is None or any(x in ('ValueError', 'Exception', 'BaseException',
+                                                       'UnicodeDecodeError', 'UnicodeError')
+                                                 for x in hn):
+                                ok = True
+                    A.check(ok, rule + '.bad-response', '%s %s: decoding the response body to '
+                            'text is covered by the invalid-response handler' % (name, fn),
+                            A.site(fi, node), key='%s-%s-decode-unguarded' % (name, fn),
+                            detail=ast.unparse(c),
+                            behaviour='a 200 reply that is not valid UTF-8 raises out of '
+                                      'connect() / kills the read loop: no disconnect event, the '
+                                      "client stays 'connected' forever")
+        A.floor(rule, '%s %s response decodes' % (name, fn), n, 1)
